@@ -1,7 +1,7 @@
 use serde::{Deserialize, Serialize};
 
 use crate::{
-    Document, FatToken,
+    Document, FatToken, Punctuation, Span, TokenKind,
     linting::{Lint, LintKind, Suggestion},
 };
 
@@ -33,14 +33,26 @@ impl LintContext {
             .pulled_by(2)
             .map(|v| document.token_indices_intersecting(v))
             .unwrap_or_default();
-        let sequel_tokens = document.token_indices_intersecting(lint.span.with_len(2).pushed_by(2));
+        // The two characters right after the problematic text.
+        let sequel_tokens =
+            document.token_indices_intersecting(Span::new_with_len(lint.span.end, 2));
 
         let tokens = prequel_tokens
             .into_iter()
             .chain(problem_tokens)
             .chain(sequel_tokens)
             .flat_map(|idx| document.get_token(idx))
-            .map(|t| t.to_fat(document.get_source()))
+            .map(|t| {
+                let mut fat = t.to_fat(document.get_source());
+
+                // The context is meant to be location-agnostic, but a quote remembers the index
+                // of its twin: any edit earlier in the document would change it.
+                if let TokenKind::Punctuation(Punctuation::Quote(quote)) = &mut fat.kind {
+                    quote.twin_loc = None;
+                }
+
+                fat
+            })
             .collect();
 
         Self {
